@@ -211,6 +211,14 @@ def rule_d(ctx, cr):
                   "%d link-time errors, each with line_number_for(addr) and its column" % len(news),
                   "%s builds %d errors but %d carry a line number from line_number_for and %d a "
                   "column" % (name, len(news), len(inl), len(inc)))
+    lk = cr.need_fn("mach::link::Link::link")
+    und = [b for b, c, _s in lk.error_codes() if c == "UndefinedLine"]
+    seen = [(op, t) for b in und for op, l, r, t in lk.cmp_conds_at(b) if lk.describe(r) == "const:0"]
+    ctx.check(bool(und) and all((op, t) in (("Ge", True), ("Lt", False)) for op, t in seen) and seen,
+              "C19.d", "link/undefined-line-includes-line-0", lk.span,
+              "an unresolved reference to any line number >= 0 is UNDEFINED LINE",
+              "Link::link raises UNDEFINED LINE under %s: a reference to a missing line 0 is not "
+              "reported as an undefined line" % seen)
     p = cr.need_fn("lang::parse::parse")
     ctx.check(bool(p.calls_to("lang::error::Error::in_line_number")), "C19.d",
               "parse/attaches-line-number", p.span, "parse errors get the line's number")
